@@ -151,6 +151,8 @@ func (i *interpreter) goStmt(fr *frame, instr *ssa.Go) {
 				// any panic escaping a goroutine ends the path: deliver to main
 				if s.abort == nil {
 					switch rr := r.(type) {
+					case stepBudgetExceeded:
+						s.abort = rr
 					case engineAbort:
 						s.abort = rr
 					case targetPanic:
